@@ -728,15 +728,22 @@ char* MemoryLeakDetector::reallocMemory(TestMemoryAllocator* allocator, char* me
 #ifdef CPPUTEST_DISABLE_MEM_CORRUPTION_CHECK
    allocatNodesSeperately = true;
 #endif
+    MemoryLeakDetectorNode* node = NULLPTR;
     if (memory) {
-        MemoryLeakDetectorNode* node = memoryTable_.removeNode(memory);
+        node = memoryTable_.removeNode(memory);
         if (node == NULLPTR) {
             outputBuffer_.reportDeallocateNonAllocatedMemoryFailure(file, line, allocator, reporter_);
             return NULLPTR;
         }
-        checkForCorruption(node, file, line, allocator, allocatNodesSeperately);
+        checkForCorruption(node, file, line, allocator, false);
     }
-    return reallocateMemoryAndLeakInformation(allocator, memory, size, file, line, allocatNodesSeperately);
+    char* new_memory = reallocateMemoryAndLeakInformation(allocator, memory, size, file, line, allocatNodesSeperately);
+    if (node) {
+        /* A failed realloc leaves the old block allocated, so it has to stay tracked */
+        if (new_memory == NULLPTR) memoryTable_.addNewNode(node);
+        else if (allocatNodesSeperately) allocator->freeMemoryLeakNode((char*) node);
+    }
+    return new_memory;
 }
 
 void MemoryLeakDetector::ConstructMemoryLeakReport(MemLeakPeriod period)
